@@ -241,7 +241,10 @@ pub fn replay_obj(rep: &mut Report, st: &mut ObjState, rec: &J) {
 	let mut o = Object::new();
 	let hist = rec["hist"].as_array().unwrap();
 	for (j, op) in hist.iter().enumerate() {
-		apply(&mut o, op, j);
+		if let Err(p) = guarded(|| apply(&mut o, op, j)) {
+			rep.mismatch("C06.panic", json!({"what": "object operation panicked while replaying the access history", "vector": rec, "step": j, "panic": p}));
+			return;
+		}
 	}
 	let salt = hist.len() + rep.counters["obj_vectors"] as usize;
 	let ret = match guarded(|| apply(&mut o, &rec["op"], salt)) {
